@@ -186,7 +186,6 @@ def judge(hist, action, o):
 def explore_states(max_depth, acc):
     """BFS over toggle histories (sequential, in the parent): representative history per canonical state."""
     reps = {}
-    disagreements = []
 
     def build(hist):
         o = execute(list(hist), None)
